@@ -8,7 +8,7 @@
 """
 from symx.runner import Ob, run_property
 from symx import stubs
-from harness.common import make, ref_rung_levels
+from harness.common import make, ref_rung_levels, new_trial
 from harness.schedsim import SchedSim, Hooks
 
 
@@ -90,6 +90,45 @@ def h_hyperband(sym, typ="stopping", searcher="random", mode="min", policy="rung
     sim.run(hooks)
 
 
+def h_gp_early_failures(sym, W=3, N=7, num_init_random=2):
+    """FIFO + GP Bayesian optimisation with a SMALL num_init_random: trials are started and fail (symbolic order) before any
+    trial has delivered a result.  Without observations the searcher has nothing to fit; every request for work must still be
+    answered (no exception), and a failed configuration is not suggested again."""
+    from syne_tune.optimizer.schedulers.fifo import FIFOScheduler
+    from syne_tune.config_space import uniform, randint
+    stubs.shim_modules(["syne_tune.optimizer.schedulers.searchers.model_based_searcher"])
+    cs = {"x": uniform(0, 1), "n": randint(1, 5)}
+    sch = make(FIFOScheduler, cs, searcher="bayesopt", metric="m", mode="min", random_seed=3,
+               search_options={"debug_log": False, "num_init_random": num_init_random})
+    trials, running, failed_cfgs = {}, [], []
+    for step in range(N):
+        opts = [("fail", t) for t in running]
+        if len(running) < W:
+            opts.append(("suggest", None))
+        kind, tid = opts[sym.choice("c%d" % step, len(opts))]
+        if kind == "suggest":
+            nid = len(trials)
+            try:
+                s_ = sch.suggest(nid)
+            except AssertionError as e:
+                s_ = None
+                sym.violation("C13.scheduler-raises-after-failure", "suggest(%d) raises AssertionError (%s) after %d failure(s) and no result so far" % (nid, str(e)[:120], len(failed_cfgs)))
+            sym.check(s_ is not None and s_.spawn_new_trial_id, "C13.scheduler-raises-after-failure", "suggest(%d) returned %s" % (nid, s_))
+            core = {k: s_.config[k] for k in ("x", "n")}
+            sym.check(core not in failed_cfgs, "C13.failed-config-resuggested", str(core))
+            trials[nid] = new_trial(nid, s_.config)
+            sch.on_trial_add(trials[nid])
+            running.append(nid)
+            if failed_cfgs:
+                sym.goal("suggest-after-failure")
+        else:
+            sch.on_trial_error(trials[tid])
+            running.remove(tid)
+            failed_cfgs.append({k: trials[tid].config[k] for k in ("x", "n")})
+            sym.goal("failure")
+    sym.goal("end")
+
+
 ASSUME = [
     "scheduler is driven with the tuner's protocol: on_trial_error once per failure, failed trial leaves the running set",
     "exact real arithmetic for metrics; GP surrogate not fitted (bookkeeping only)",
@@ -112,8 +151,14 @@ def obligations(tier):
     return obs
 
 
+def early_failure_obligations():
+    return [Ob("C13.d[fifo-bo,num_init_random=2,failures-before-any-result]", "props.c13:h_gp_early_failures", dict(W=3, N=7, num_init_random=2),
+               bounds=dict(W=3, events=7, num_init_random=2, events_kind="starts and failures only"), goals=("failure", "suggest-after-failure", "end"),
+               split=(("c3", (0, 1, 2, 3)),), budget_s=900, stubs=("npshim on model_based_searcher",))]
+
+
 def run(tier, seed, only=None):
-    obs = obligations(tier)
+    obs = obligations(tier) + early_failure_obligations()
     try:
         from props import c05
         obs += c05.failure_obligations(tier)
